@@ -14,6 +14,10 @@ from .kernel import mk_bytes, bsum
 from .simfs import SimFile, apply_faults
 
 
+class SoloWriterFailed(Exception):
+    """the real writer raised on a well-formed workload while preparing a reader's image"""
+
+
 def vsum(x):
     """deterministic summary of a yielded value"""
     if isinstance(x, dict):
@@ -32,7 +36,7 @@ def solo_image(wspec):
            "knobs": {"MAX_VBS_RECORD_LENGTH": 10000}}
     wr = pipeline.write_phase(scn)
     if wr.error or wr.fin_errors:
-        raise RuntimeError(f"solo writer failed: {wr.error or wr.fin_errors}")
+        raise SoloWriterFailed(wr.error or wr.fin_errors[0][1:])
     return wr.image
 
 
